@@ -428,7 +428,7 @@ Definition handle (s : state) (o : op) : outcome state :=
   | OBank sg to amt _ => if negb (coins_ok amt) then Err "invalid coins" else send s sg to amt
   | OMulti sg to amt => if negb (coins_ok amt) then Err "invalid coins" else send s sg to amt
   | ORotate a nw ok =>
-      if negb ok then Err "rotation refused" else
+      if negb ok || (a =? nw) then Err "rotation refused" else
       let A := getA s a in
       let B := getA s nw in
       let mv {X} (x y : option X) : option X := match x with Some _ => x | None => y end in
